@@ -231,3 +231,14 @@ impl Matcher {
         }
     }
 }
+
+/// Verification hook (feature `llg_verif`): read-only access to the wrapped parser.
+#[cfg(feature = "llg_verif")]
+impl Matcher {
+    pub fn verif_token_parser(&self) -> Option<&TokenParser> {
+        match &self.0 {
+            MatcherState::Normal(inner) => Some(&inner.parser),
+            MatcherState::Error(_) => None,
+        }
+    }
+}
